@@ -30,8 +30,9 @@ VOCAB = (MF.BUILTINS + ("if", "then", "else", "do", "loop", "+loop", "begin", "a
 
 
 class _Gen(object):
-    def __init__(self, draw):
+    def __init__(self, draw, max_total=30):
         self.draw = draw
+        self.max_total = max_total
         self.vars = []
         self.ins = []
         self.outs = []
@@ -325,7 +326,7 @@ class _Gen(object):
             if name not in self.outs:
                 self.outs.append(name)
                 decls += ["output", name, self.pick(DTYPE_NAMES)]
-        total = self.integer(6, 30)
+        total = self.integer(6, self.max_total)
         for _ in range(self.integer(0, 2) if self.chance(45) else 0):
             name = self.pick(("foo", "bar", "baz"))
             if name in self.words:
@@ -405,8 +406,8 @@ GROWTH = [[1, 1.5], [2, 2.0], [1024, 1.5], [1, 1.1], [3, 1.01], [1, 3.0], [16, 1
 
 
 @st.composite
-def cases(draw, mutate_percent=15):
-    g = _Gen(draw)
+def cases(draw, mutate_percent=15, max_total=30):
+    g = _Gen(draw, max_total)
     toks = g.program()
     mutated = draw(st.integers(0, 99)) < mutate_percent
     if mutated:
